@@ -441,6 +441,42 @@ pub fn native_subjects(prop: &str) -> Vec<Subject> {
             });
             s
         });
+        // The same filter with more data than its four streams hold together
+        // (one page each): everything full, samples in flight inside, when the
+        // input ends.
+        {
+            let ftaps = vec![0.5f32, 0.25, -0.125];
+            let fdata = test_floats(3000);
+            v.push(Subject {
+                block: "FftFilterFloat".into(),
+                variant: "ntaps=3, 3000 samples through one-page streams".into(),
+                quantum: 1024,
+                build: Box::new(move |st| {
+                    verif::clear_stream_specs();
+                    let (ip, r) = sin(st, fdata.clone(), vec![]);
+                    verif::push_stream_spec(StreamSpec::plain(PAGE));
+                    verif::push_stream_spec(StreamSpec::plain(PAGE));
+                    plan_out(st, 1);
+                    let (b, o) = FftFilterFloat::new(r, &ftaps);
+                    verif::clear_stream_specs();
+                    Instance {
+                        block: bx(b),
+                        ins: vec![ip],
+                        outs: vec![sout(st, o)],
+                    }
+                }),
+                starts: vec![Start::plain()],
+                ref_pages: 8,
+                spec: None,
+                infinite_source: false,
+                horizon: 0,
+                no_retire_check: false,
+                warmup: vec![],
+                horizon_delta: 0,
+                prefix_spec: false,
+                sync_check: false,
+            });
+        }
         let ftaps = vec![0.5f32, 0.25, -0.125];
         let fdata = test_floats(23);
         let tags2 = tags.clone();
